@@ -97,8 +97,8 @@ def sigma(pos_a, pos_b, r0, L0):
     return vk.B(sep, r0, L0)
 
 
-# outer scale in pixels: the code imposes no limit other than refusing (LinAlgError) what it cannot factorise
-RATIO = st.one_of(gen.logfloat(5.0, 1000.0), gen.logfloat(1000.0, 1e5), gen.logfloat(1e5, 1e7))      # 1e6 m is the customary "Kolmogorov" outer scale
+# outer scale in pixels, from a fifth of a pixel (an outer scale below the sampling interval is valid, just unusual): the code imposes no limit other than refusing (LinAlgError) what it cannot factorise
+RATIO = st.one_of(gen.logfloat(0.2, 5.0), gen.logfloat(5.0, 1000.0), gen.logfloat(1000.0, 1e5), gen.logfloat(1e5, 1e7))      # 1e6 m is the customary "Kolmogorov" outer scale
 
 
 @st.composite
